@@ -21,6 +21,20 @@ CHECKS = {
     ),
 }
 
+CHECKS["C06"] = dict(
+    category="proof",
+    text="Per country of the bundled table (125 without DE): the real BBAN(K, b).validate_national_checksum() is "
+         "symbolically executed for every class-conforming BBAN b; each path is proved to return True exactly when "
+         "an independently written spec of the published national rule accepts b and to raise a library error "
+         "otherwise; countries without algorithm always return True. Helper contracts (numerify, luhn, get_index, "
+         "clean, BBAN.bank) are used at call sites and verified by their own tasks.",
+    design_ref="DESIGN.md C06",
+    note="Trusted: pyvc encoding, z3/cvc5, transcription of the national rules (A10). NO accounts whose digits 5-6 "
+         "are 00 are an unspecified band. BBAN.bank contract (None or an entry of the BBAN's country) assumed here, "
+         "proved under C12. The IBAN-level threading of validate_bban is covered by C05's tasks.",
+    technique="contract-based deductive verification: VCs from the live ASTs (pyvc), z3/cvc5; native replay",
+)
+
 NOT_YET = {}
 
 ALL = [f"C{i:02d}" for i in range(1, 19)]
